@@ -145,7 +145,7 @@ def events(effs):
             else:
                 out.append({"e": "set_field", "base": b, "field": f[1], "val": v, "at": e["at"]})
         elif k == "store_index":
-            out.append({"e": "store_index", "base": e["args"][0], "idx": e["args"][1], "val": e["args"][2], "at": e["at"]})
+            out.append({"e": "store_index", "base": e["args"][0], "idx": e["args"][1], "val": e["args"][2], "at": e["at"], "checked": e.get("checked")})
         elif k == "ip_bump":
             out.append({"e": "ip_bump", "at": e["at"]})
         elif k == "alloc":
@@ -270,6 +270,15 @@ def row_literal(fx, p, evs, R):
         R.need(a and v[0] == "ctor" and a[-1][2][1] == lit(v[2]), "constant kind and pushed kind differ")
 
 
+def checked_access(effs, v):
+    """(sequence, index) when v is the payload of `sequence.get(index)` / `get_mut(index)` — a checked access"""
+    if isinstance(v, tuple) and v[:1] == ("payload",):
+        for e in _all_effects(effs):
+            if e["k"] == "call" and e.get("res") == v[1] and suffix(e) in ("get", "get_mut") and len(e["args"]) == 3:
+                return e["args"][1], e["args"][2]
+    return None
+
+
 def row_get_local(fx, p, evs, R):
     R.need(state_kinds(evs) == ["frame_top", "push", "ip_bump"], "state effects %s, expected [frame_top, push, ip_bump]" % state_kinds(evs))
     ft = [e for e in evs if e["e"] == "frame_top"]
@@ -278,6 +287,9 @@ def row_get_local(fx, p, evs, R):
         want = ("app", "index", (fld(ft[0]["val"], "locals"), None))
         v = pu[0]["val"]
         ok = v[0] == "app" and v[1] == "index" and v[2][0] == fld(ft[0]["val"], "locals") and mentions(v[2][1], fld(("var", "index"), "0"))
+        chk = checked_access(p["eff"], v)
+        if chk is not None and chk[0] == fld(ft[0]["val"], "locals") and mentions(chk[1], fld(("var", "index"), "0")):
+            return      # `locals.get(operand)` — the element, and its absence is the failure: value and bounds check in one
         R.need(ok, "pushed value is not locals[operand] of the current frame: %s" % fmt_term(v))
         R.need(any((not val) and "ge(" in fmt_term(c) and "len(" in fmt_term(c) for c, val in assumes(p["eff"])) or
                any(val and "lt(" in fmt_term(c) and "len(" in fmt_term(c) for c, val in assumes(p["eff"])),
@@ -292,7 +304,7 @@ def row_set_local(fx, p, evs, R):
     if pk and ft and stx:
         R.need(stx[0]["base"] == fld(ft[0]["val"], "locals") and mentions(stx[0]["idx"], fld(("var", "index"), "0")), "does not store into locals[operand] of the current frame")
         R.need(stx[0]["val"] == pk[0]["val"], "stored value is not the (peeked) top of stack: %s" % fmt_term(stx[0]["val"]))
-        R.need(any("len(" in fmt_term(c) for c, val in assumes(p["eff"])), "no bounds check of the local index")
+        R.need(any("len(" in fmt_term(c) for c, val in assumes(p["eff"])) or stx[0].get("checked") is not None, "no bounds check of the local index")
 
 
 def row_get_global(fx, p, evs, R):
@@ -802,14 +814,22 @@ def fault_rows(ck, fx, cg, rule="R10.faults"):
             return isinstance(v, tuple) and v[0] == "fall" and v[3] == op
         return f
 
+    def either(*preds):
+        return lambda e: any(pr(e) for pr in preds)
+
+    def bounds(text):
+        """an out-of-range index is detected by a comparison with the length or by a checked access (`get` / `get_mut`)"""
+        return either(assume_pred(text, True), assume_pred("lt(", False), fail_pred("get"), fail_pred("get_mut"),
+                      assume_pred("is_some(fall", False), assume_pred("is_none(fall", True))
+
     rows = [
         ("unknown variable (read)", "bytecode::state::GlobalFrame::get", fail_pred("get")),
         ("unknown variable (assignment)", "bytecode::state::GlobalFrame::update", assume_pred("is_ok", None)),
         ("unknown function", "bytecode::state::GlobalFunctions::get", fail_pred("get")),
         ("unknown field (read)", "bytecode::heap::ObjectInstance::get_field", fail_pred("get")),
         ("unknown field (assignment)", "bytecode::heap::ObjectInstance::set_field", fail_pred("insert")),
-        ("index out of range (get)", "bytecode::heap::ArrayInstance::get_element", assume_pred("ge(index, len(", True)),
-        ("index out of range (set)", "bytecode::heap::ArrayInstance::set_element", assume_pred("ge(index, len(", True)),
+        ("index out of range (get)", "bytecode::heap::ArrayInstance::get_element", bounds("ge(index, len(")),
+        ("index out of range (set)", "bytecode::heap::ArrayInstance::set_element", bounds("ge(index, len(")),
         ("negative index", "bytecode::heap::Pointer::as_usize", assume_pred("ge(", False)),
         ("wrong operand kind (integer expected)", "bytecode::heap::Pointer::as_i32", assume_pred("is_variant(self, 'Integer')", False)),
         ("wrong operand kind (reference expected)", "bytecode::heap::Pointer::into_heap_reference", assume_pred("is_variant(self, 'Reference')", False)),
@@ -819,7 +839,7 @@ def fault_rows(ck, fx, cg, rule="R10.faults"):
         ("empty operand stack", "bytecode::state::OperandStack::pop", fail_pred("pop")),
         ("empty frame stack", "bytecode::state::FrameStack::pop", fail_pred("pop")),
         ("missing label", "bytecode::program::Labels::get", fail_pred("get")),
-        ("local index out of frame", "bytecode::state::Frame::get", assume_pred("ge(", True)),
+        ("local index out of frame", "bytecode::state::Frame::get", bounds("ge(")),
         ("constant index out of pool", "bytecode::program::ConstantPool::get", fail_pred("get")),
         ("unknown method on an object without parent", "dispatch_object_method", assume_pred("is_variant(", None)),
     ]
